@@ -1,6 +1,7 @@
 package ledgerh
 
 import (
+	"bytes"
 	"fmt"
 	"sort"
 
@@ -10,6 +11,7 @@ import (
 	"github.com/elastos/Elastos.ELA/core/types/interfaces"
 	"github.com/elastos/Elastos.ELA/core/types/outputpayload"
 	"github.com/elastos/Elastos.ELA/core/types/payload"
+	"github.com/elastos/Elastos.ELA/crypto"
 
 	"verifharness/fixture"
 	"verifharness/lib"
@@ -426,4 +428,164 @@ func pubBytes(h *H) []byte {
 func (h *H) SpecialOn(b *hblk, kind string, hashes []common.Uint256) interfaces.Transaction {
 	set, _, _ := h.view(b)
 	return h.Special(kind, set, map[ctypes.OutPoint]bool{}, hashes)
+}
+
+// ---------------------------------------------------------------- typed pool traffic (C06)
+
+// PoolTypes are the transaction types with inputs the fixture can push
+// through the real TxPool.AppendToTxPool (sanity + context + pool checks):
+// transfers, Record, and SideChainPow (the only type with its own branch in
+// verifyTransactionWithTxnPool; needs the on-duty arbiter to be Keys[0]).
+var PoolTypes = []string{"transfer", "record", "sidechainpow"}
+
+// CanSidePow says whether the on-duty cross-chain arbiter is Keys[0].
+func (h *H) CanSidePow() bool {
+	pk, _ := h.F.Keys[0].Acc.PublicKey.EncodePoint(true)
+	return string(h.F.Arbiters.GetOnDutyCrossChainArbitrator()) == string(pk)
+}
+
+// Typed builds a transaction of the given type spending ins.
+func (h *H) Typed(kind string, ins []fixture.In, total common.Fixed64, genesis byte) interfaces.Transaction {
+	h.tag++
+	tag := uint64(h.ID)<<32 | h.tag
+	out := []*ctypes.Output{{AssetID: core.ELAAssetID, Value: total - common.Fixed64(200+h.Rng.Intn(500)), ProgramHash: h.F.Keys[h.Rng.Intn(4)].Hash,
+		Type: ctypes.OTNone, Payload: &outputpayload.DefaultOutput{}}}
+	var tx interfaces.Transaction
+	var err error
+	switch kind {
+	case "record":
+		tx, err = h.F.RawTx(ctypes.Record, 0, &payload.Record{Type: "verif", Content: h.Rng.Bytes(4)}, ins, out, tag)
+	case "sidechainpow":
+		pl := &payload.SideChainPow{SideBlockHash: common.Uint256{0xb1, byte(h.tag)}, SideGenesisHash: common.Uint256{0x9e, genesis}, BlockHeight: uint32(h.tag)}
+		buf := new(bytes.Buffer)
+		pl.Serialize(buf, payload.SideChainPowVersion)
+		pl.Signature, _ = crypto.Sign(fixture.KeySeed(0), buf.Bytes()[0:68])
+		tx, err = h.F.RawTx(ctypes.SideChainPow, payload.SideChainPowVersion, pl, ins, out, tag)
+		if err == nil {
+			h.side[tx.Hash()] = &sideInfo{coq: fmt.Sprintf("(SPow %d)", genesis)}
+		}
+	default:
+		tx, err = h.F.Transfer(ins, []fixture.Out{{Key: h.Rng.Intn(4), Value: out[0].Value}}, tag)
+	}
+	if err != nil {
+		panic(err)
+	}
+	return tx
+}
+
+// TypedCollision submits two or three transactions of (possibly) different
+// types that spend one common outpoint (possibly with different Sequence).
+func (h *H) TypedCollision(tip *hblk) {
+	set, _, _ := h.view(tip)
+	inPool := map[ctypes.OutPoint]bool{}
+	for _, t := range h.F.PoolTxs() {
+		for _, in := range t.Inputs() {
+			inPool[in.Previous] = true
+		}
+	}
+	var cs []cand
+	for _, c := range sortedCands(set) {
+		if c.u.val >= 5000 && !inPool[c.op] && !(c.u.cb && tip.height-c.u.lock < h.F.Params.PowConfiguration.CoinbaseMaturity) {
+			cs = append(cs, c)
+		}
+	}
+	if len(cs) == 0 {
+		return
+	}
+	c := cs[h.Rng.Intn(len(cs))]
+	types := PoolTypes
+	if !h.CanSidePow() {
+		types = types[:2]
+	}
+	n := 2 + h.Rng.Intn(2)
+	for i := 0; i < n; i++ {
+		kind := types[h.Rng.Intn(len(types))]
+		seq := uint32(0)
+		if h.Rng.Chance(40) {
+			seq = uint32(h.Rng.Intn(3))
+		}
+		ins := []fixture.In{{Op: c.op, Key: c.u.addr, Seq: seq}}
+		total := c.u.val
+		if len(cs) > 1 && h.Rng.Chance(30) { // plus a private input
+			o := cs[h.Rng.Intn(len(cs))]
+			if o.op != c.op {
+				ins = append(ins, fixture.In{Op: o.op, Key: o.u.addr})
+				total += o.u.val
+			}
+		}
+		h.Submit(h.Typed(kind, ins, total, byte(1+h.Rng.Intn(2))), "typed:"+kind)
+	}
+}
+
+// CorpusSeqBlocks: in-block double spends where the two spenders use
+// different Sequence values (different transactions in both orders, with and
+// without other inputs / transactions around them; once inside one
+// transaction), each on the current tip, then a valid block.
+func (h *H) CorpusSeqBlocks() {
+	h.Process(h.validBlock(h.tip(), 0))
+	h.Process(h.validBlock(h.tip(), 2))
+	for i := 0; i < 6; i++ {
+		if b := h.faultyBlock(h.tip(), "dupblockseq"); b != nil {
+			h.Process(b)
+		}
+	}
+	for i := 0; i < 2; i++ {
+		if b := h.faultyBlock(h.tip(), "dupinseq"); b != nil {
+			h.Process(b)
+		}
+	}
+	h.Process(h.validBlock(h.tip(), 2))
+}
+
+// CorpusTypedPool: every ordered pair of pool-capable transaction types
+// collides on one outpoint (equal and different Sequence); SideChainPow of
+// one side chain replaces its predecessor, of another side chain must not
+// share the outpoint.
+func (h *H) CorpusTypedPool() {
+	h.Process(h.validBlock(h.tip(), 0))
+	h.Process(h.validBlock(h.tip(), 3))
+	h.Process(h.validBlock(h.tip(), 3))
+	types := PoolTypes
+	if !h.CanSidePow() {
+		types = types[:2]
+	}
+	pick := func() *cand {
+		set, _, _ := h.view(h.tip())
+		inPool := map[ctypes.OutPoint]bool{}
+		for _, t := range h.F.PoolTxs() {
+			for _, in := range t.Inputs() {
+				inPool[in.Previous] = true
+			}
+		}
+		for _, c := range sortedCands(set) {
+			if c.u.val >= 5000 && !inPool[c.op] && !(c.u.cb && h.tip().height-c.u.lock < h.F.Params.PowConfiguration.CoinbaseMaturity) {
+				c := c
+				return &c
+			}
+		}
+		return nil
+	}
+	for _, first := range types {
+		for _, second := range types {
+			for _, seq := range []uint32{0, 1} {
+				c := pick()
+				if c == nil {
+					h.Process(h.BuildOn(h.tip(), h.F.PoolTxs(), "", fixture.BlockOpt{}))
+					h.Process(h.validBlock(h.tip(), 3))
+					if c = pick(); c == nil {
+						return
+					}
+				}
+				h.Submit(h.Typed(first, []fixture.In{{Op: c.op, Key: c.u.addr}}, c.u.val, 1), "typed:"+first)
+				h.Submit(h.Typed(second, []fixture.In{{Op: c.op, Key: c.u.addr, Seq: seq}}, c.u.val, 2), "typed:"+second)
+			}
+		}
+	}
+	if h.CanSidePow() { // same side chain: replacement of the predecessor, same outpoint
+		if c := pick(); c != nil {
+			h.Submit(h.Typed("sidechainpow", []fixture.In{{Op: c.op, Key: c.u.addr}}, c.u.val, 7), "typed:sidechainpow")
+			h.Submit(h.Typed("sidechainpow", []fixture.In{{Op: c.op, Key: c.u.addr}}, c.u.val, 7), "typed:sidechainpow-replace")
+		}
+	}
+	h.Process(h.BuildOn(h.tip(), h.F.PoolTxs(), "", fixture.BlockOpt{})) // mine the pool
 }
